@@ -518,7 +518,9 @@ func (e *Exec) explore(s *State, q *workQ, finish func(outcome)) {
 		forks, done := e.step(s)
 		if forks != nil {
 			if len(forks) == 0 {
-				finish(outcome{"infeasible", s, ""})
+				if !s.Dead {
+					finish(outcome{"infeasible", s, ""})
+				}
 				return
 			}
 			if len(forks) > 1 {
